@@ -11,6 +11,7 @@ use hydro_lang::location::{Location, MemberId};
 use hydro_lang::prelude::*;
 pub use hydro_test::cluster::paxos::{Ballot, LogValue, Proposer};
 use hydro_test::cluster::paxos::{index_payloads, recommit_after_leader_election};
+pub use hydro_test::cluster::paxos::{Acceptor, P2a, PaxosConfig, paxos_core};
 
 pub type P1bLog = (Option<usize>, HashMap<usize, LogValue<u32>>);
 
@@ -46,4 +47,34 @@ pub fn px_index<'a>(max: Stream<usize, Process<'a, ()>>, payloads: Stream<u32, P
     let m = max.batch(&tick, nondet!(/** harness */)).max();
     let p = payloads.batch(&tick, nondet!(/** harness */));
     index_payloads(m, p).all_ticks().embedded_output("out");
+}
+
+
+/// The whole `paxos_core` program (f = 1: 3 acceptors), payloads `u32`, with embedded inputs for the
+/// client payloads at the proposers and the checkpoint at the acceptors, and embedded outputs for
+/// the leader notifications and the decided `(slot, value)` stream.
+pub fn px_core<'a>(
+    proposers: &Cluster<'a, Proposer>,
+    acceptors: &Cluster<'a, Acceptor>,
+    payloads: Stream<u32, Cluster<'a, Proposer>>,
+    checkpoint: Stream<usize, Cluster<'a, Acceptor>>,
+) {
+    let (ballots, decided) = paxos_core(
+        proposers,
+        acceptors,
+        checkpoint.max(),
+        |_new_leader| payloads,
+        PaxosConfig {
+            f: 1,
+            i_am_leader_send_timeout: 1,
+            i_am_leader_check_timeout: 3,
+            i_am_leader_check_timeout_delay_multiplier: 1,
+        },
+        nondet!(/** harness */),
+        nondet!(/** harness */),
+    );
+    ballots.embedded_output("leader");
+    decided
+        .assume_ordering::<TotalOrder>(nondet!(/** harness sorts */))
+        .embedded_output("decided");
 }
